@@ -77,11 +77,13 @@ pub struct WsGenOpts {
     /// a file patch whose target is a directory: loading it is an I/O error, the push must stop
     /// with an error and write nothing at all
     pub allow_hard_error: bool,
+    /// chance (out of 8) that a start file ends in a very long line (longer than any I/O buffer)
+    pub long_last_line_chance: u32,
 }
 
 impl Default for WsGenOpts {
     fn default() -> Self {
-        WsGenOpts { max_patches: 6, max_files: 8, fail_chance: 3, allow_reverse: true, allow_rename: true, allow_mode: true, allow_strip: true, nasty_names: false, allow_dup_entries: true, allow_dir_races: true, max_lines: 30, strict_reject_dirs: false, alt_name_chance: 0, allow_misordered: false, second_failure: false, allow_hard_error: false }
+        WsGenOpts { max_patches: 6, max_files: 8, fail_chance: 3, allow_reverse: true, allow_rename: true, allow_mode: true, allow_strip: true, nasty_names: false, allow_dup_entries: true, allow_dir_races: true, max_lines: 30, strict_reject_dirs: false, alt_name_chance: 0, allow_misordered: false, second_failure: false, allow_hard_error: false, long_last_line_chance: 0 }
     }
 }
 
@@ -159,7 +161,21 @@ pub fn gen_ws(ch: &mut Chooser, cx: &mut CaseCtx, o: &WsGenOpts) -> WsCase {
     let nfiles = ch.range(1, o.max_files);
     for _ in 0..nfiles {
         if let Some(p) = new_path(ch, &t0, &[], o.nasty_names) {
-            let lines = gen_file_lines(ch, alpha, o.max_lines, true);
+            let mut lines = gen_file_lines(ch, alpha, o.max_lines, true);
+            if o.long_last_line_chance > 0 && ch.chance(o.long_last_line_chance, 8) {
+                if let Some(l) = lines.last_mut() {
+                    if l.0.last() != Some(&b'\n') {
+                        l.0.push(b'\n');
+                    }
+                }
+                let n = ch.range(9000, 30000);
+                let mut long: Vec<u8> = (0..n).map(|i| b'a' + (i % 23) as u8).collect();
+                if ch.chance(1, 2) {
+                    long.push(b'\n');
+                }
+                lines.push(B(long));
+                feat.push("very-long-last-line".into());
+            }
             t0.files.insert(p, TFile { data: B(join_lines(&lines)), mode: *ch.pick(MODES) });
         }
     }
